@@ -210,6 +210,13 @@ func oracle(stream, in, outp string) {
 				continue
 			}
 			s.ambientOracle(f, res, fail)
+		case "aw":
+			res := s.apply(f)
+			if res == "crash" || res == "bad-op" || strings.HasPrefix(res, "timeout") {
+				fail("never-crashes", "crash", strings.Join(f, " ")+" -> "+res)
+				continue
+			}
+			s.ambientWorkloadOracle(f, res, fail)
 		default:
 			if s.apply(f) == "crash" {
 				fail("never-crashes", "crash", strings.Join(f, " "))
